@@ -234,6 +234,38 @@ func mutantsOf(base string, doc any, rng *PRNG, budget int) []mutant {
 		pm["format"] = "weird-format"
 		return true
 	})
+	// names without any letter (every identifier derived from them is empty or blank)
+	for _, degenerate := range []string{"42", "_", "-"} {
+		dn := degenerate
+		targeted("rename-key:"+dn, func(p []string, pm map[string]any, k string) bool {
+			if len(p) < 2 {
+				return false
+			}
+			container := p[len(p)-2]
+			if container != "headers" && container != "properties" && container != "schemas" && container != "responses" {
+				return false
+			}
+			if container == "responses" && (len(p) < 3 || p[len(p)-3] != "components") {
+				return false // status codes are not names
+			}
+			if _, exists := pm[dn]; exists || k == dn {
+				return false
+			}
+			pm[dn] = pm[k]
+			delete(pm, k)
+			return true
+		})
+		targeted("rename-param:"+dn, func(p []string, pm map[string]any, k string) bool {
+			if k != "name" {
+				return false
+			}
+			if _, isParam := pm["in"]; !isParam || pm["in"] == "path" {
+				return false
+			}
+			pm["name"] = dn
+			return true
+		})
+	}
 	targeted("array-no-items", func(p []string, pm map[string]any, k string) bool {
 		if k != "items" {
 			return false
